@@ -146,7 +146,7 @@ func runGRPC(sc grpcScenario) (violation, sig string) {
 			select {
 			case <-ctx.Done():
 				return status.Error(codes.Canceled, "caller went away")
-			case <-time.After(30 * time.Second):
+			case <-harness.After(30 * time.Second):
 				ctxProblem = "the attempt's context was not done 30s after the caller cancelled"
 				return status.Error(codes.Internal, "never cancelled")
 			}
